@@ -433,3 +433,68 @@ fn c03_label_split_from() {
     let (e, m) = raw::<5>();
     assert!(Label::from_slice(&e[..m]).is_ok());
 }
+
+// --------------------------------------------------------------- slicing
+use crate::c05::FlatName;
+
+// @funcs: Name::{is_label_start,split,range_from,slice_from,truncate,split_first,parent,label_count,first,into_relative}, RelativeName::chain
+// @bound: a flat name with label structure (2,1) and symbolic content, every index 0..=7: is_label_start is true exactly at label boundaries; splitting at any boundary yields a valid relative and a valid absolute part that re-chain to the original octets; parent/split_first/into_relative stay valid
+// @outside: names of more than two labels; splitting at non-boundaries (documented to panic)
+#[kani::proof]
+#[kani::unwind(10)]
+fn c03_name_slicing_keeps_names_valid() {
+    let f = FlatName::any::<2, 1>();
+    let n = f.name();
+    let idx: usize = kani::any();
+    kani::assume(idx <= 7);
+    let boundary = idx == 0 || idx == 3 || idx == 5;
+    assert!(n.is_label_start(idx) == boundary);
+    assert!(n.label_count() == 3);
+    assert!(n.first().as_slice().len() == 2);
+    if boundary {
+        let (left, right) = n.split(idx);
+        assert!(valid_relative_k(left.as_slice(), 4) && valid_absolute_k(right.as_slice(), 4));
+        assert!(left.as_slice().len() == idx && right.as_slice().len() == f.n - idx);
+        let i: usize = kani::any();
+        if i < idx {
+            assert!(left.as_slice()[i] == f.w[i]);
+        } else if i < f.n {
+            assert!(right.as_slice()[i - idx] == f.w[i]);
+        }
+        assert!(n.range_from(idx).as_slice().len() == f.n - idx);
+        assert!(valid_absolute_k(n.slice_from(idx).as_slice(), 4));
+        let t = n.clone().truncate(idx);
+        assert!(valid_relative_k(t.as_slice(), 4) && t.as_slice().len() == idx);
+    }
+    let (first, rest) = n.split_first().unwrap();
+    assert!(first.as_slice().len() == 2 && valid_absolute_k(rest.as_slice(), 4) && rest.as_slice().len() == f.n - 3);
+    let p = n.parent().unwrap();
+    assert!(p.as_slice().len() == f.n - 3 && valid_absolute_k(p.as_slice(), 4));
+    let rel = n.clone().into_relative();
+    assert!(valid_relative_k(rel.as_slice(), 4) && rel.as_slice().len() == f.n - 1);
+    kani::cover!(boundary && idx == 3, "split in the middle");
+}
+
+// @funcs: RelativeName::{strip_suffix,ends_with}, RelativeName::from_octets
+// @bound: a relative name made of one 3-octet label (symbolic content, so the content may imitate the wire form of another label) and a one-label base of 1 symbolic octet, both stored flat in owned buffers: strip_suffix only succeeds for a real label-wise suffix and always leaves a valid relative name
+// @outside: longer names; other octets types
+#[kani::proof]
+#[kani::unwind(10)]
+fn c03_strip_suffix_respects_label_boundaries() {
+    let c: [u8; 4] = kani::any();
+    let mut rel = RelativeName::from_octets(FixedBuf::<8> { data: [3, c[0], c[1], c[2], 0, 0, 0, 0], len: 4 }).unwrap();
+    let base = RelativeName::from_octets(FixedBuf::<8> { data: [1, c[3], 0, 0, 0, 0, 0, 0], len: 2 }).unwrap();
+    let r = rel.strip_suffix(&base);
+    // a one-octet label can never be a suffix of a single three-octet label
+    assert!(r.is_err());
+    assert!(valid_relative_k(rel.as_slice(), 3));
+    assert!(rel.as_slice().len() == 4);
+    // and a real suffix is stripped at the label boundary
+    let mut two = RelativeName::from_octets(FixedBuf::<8> { data: [1, c[0], 1, c[1], 0, 0, 0, 0], len: 4 }).unwrap();
+    let base2 = RelativeName::from_octets(FixedBuf::<8> { data: [1, c[3], 0, 0, 0, 0, 0, 0], len: 2 }).unwrap();
+    let r2 = two.strip_suffix(&base2);
+    assert!(r2.is_ok() == (lc(c[1]) == lc(c[3])));
+    assert!(valid_relative_k(two.as_slice(), 3));
+    assert!(two.as_slice().len() == if r2.is_ok() { 2 } else { 4 });
+    kani::cover!(r2.is_ok(), "real suffix stripped");
+}
